@@ -110,6 +110,7 @@ m("C07", "data/time_split.py", "                        if include_closing_item 
 m("C07", "data/time_split.py", "new >= start + active_timeout", "start + active_timeout <= new", "silent")
 m("C07", "data/time_split.py", "new >= last + inactive_timeout", "new - last >= inactive_timeout", "silent")
 # ---------------------------------------------------------------- C08
+m('C08', 'operators/tee_map.py', "            connectable = source.pipe(\n                ops.publish(),\n                rs.cast_as_mux_connectable(),\n            )", "            connectable = source.pipe(*[ops.publish(), rs.cast_as_mux_connectable()])", 'silent', [], 'stage list applied with a star')
 m("C08", "operators/tee_map.py", "_next = has_next[base_index:base_index+n]", "_next = has_next[base_index:base_index+n-1]", "fire", ["TM-4"])
 m("C08", "operators/tee_map.py", "        subscriptions.append(connectable.connect(scheduler=scheduler))\n        return CompositeDisposable(subscriptions)\n\n    def subscribe(", "        return CompositeDisposable(subscriptions)\n\n    def subscribe(", "fire", ["TM-1"])
 m("C08", "operators/tee_map.py", "            elif combine is True:\n                queue[i] = x\n                has_next[i] = True\n                res = tuple(queue)\n                observer.on_next(res)", "            elif combine is True:\n                queue[i] = x\n                has_next[i] = True\n                if all(has_next):\n                    res = tuple(queue)\n                    observer.on_next(res)", "fire", ["AG-3"])
@@ -138,6 +139,8 @@ m("C09", "math/formal/variance.py", "            v = _moment(acc, mean, 2)\n    
 m("C09", "operators/scan.py", "                        acc = accumulator(value, i.item)\n                        i.store.set_state(state, i.key, acc)\n                        if reduce is False:\n                            observer.on_next(rs.OnNextMux(i.key, acc, i.store))", "                        acc = accumulator(value, i.item)\n                        if reduce is False:\n                            observer.on_next(rs.OnNextMux(i.key, acc, i.store))\n                        i.store.set_state(state, i.key, acc)", "silent", note="store/emit commute")
 m("C09", "operators/scan.py", "                if type(i) is rs.OnNextMux:\n                    try:\n                        value = i.store.get_state(state, i.key)", "                if isinstance(i, rs.OnNextMux):\n                    try:\n                        value = i.store.get_state(state, i.key)", "silent")
 # ---------------------------------------------------------------- C10
+m('C10', 'operators/first.py', "            return first_mux()(source)\n        else:\n            return ops.first()(source)\n", "            return first_mux()(source)\n", 'fire', ['GEN-3'], 'mutation round 4: first() has no plain arm left (returns None)')
+m('C10', 'operators/last.py', "        else:\n            return ops.last()(source)\n", "", 'fire', ['GEN-3'], 'mutation round 4: last() has no plain arm left (returns None)')
 m('C10', 'data/to_deque.py', 'observer.on_next(acc.popleft())', 'observer.on_next(acc.pop())', 'fire', ['SO-2'], 'hand mutant: LIFO')
 m('C10', 'data/to_deque.py', '                    acc.extend(i)', '                    acc.extendleft(i)', 'fire', ['SO-2'], 'hand mutant: extendleft')
 m('C10', 'data/to_deque.py', '                    acc.extend(i)', '                    acc.append(i)', 'fire', ['SO-2'], 'hand mutant: append in extend mode')
@@ -181,6 +184,7 @@ m("C12", "math/formal/variance.py", "v = _moment(acc, mean, 2)", "v = _moment(ac
 m("C12", "math/variance.py", "m = m + (i - m) / k", "m = (m * (k - 1) + i) / k", "silent", note="algebraically equal mean update")
 m("C12", "math/min.py", "if acc is None or i < acc:", "if acc is None or acc > i:", "silent")
 # ---------------------------------------------------------------- C13
+m('C13', 'error/ignore.py', "                on_next=_on_next,\n                on_completed=observer.on_completed,\n                on_error=observer.on_error,\n", "                on_next=_on_next,\n                on_completed=observer.on_completed,\n", 'fire', ['SUB-3'], 'mutation round 4: error.ignore also swallows the stream error')
 m('C13', 'operators/last.py', '                elif type(i) is rs.OnErrorMux:\n                    observer.on_next(i)\n                    i.store.del_key(state, i.key)', '                elif type(i) is rs.OnErrorMux:\n                    observer.on_next(i)\n                    i.key.del_key(state, i.key)', 'fire', ['EV-1'], 'mutant: a method of the key tuple in the Error branch')
 m('C13', 'operators/group_by.py', '                    for k in i.store.iterate_map(state, i.key):\n                        index = i.store.get_map(state, i.key, k)\n                        observer.on_next(i._replace(key=(index, i.key)))\n                        i.store.del_map(state, i.key, k)\n                    i.store.del_key(state, i.key)\n                    outer_observer.on_next(i)\n\n                elif type(i) is rs.state.ProbeStateTopology', '                    for k in i.store.iterate_map(i.key, state):\n                        index = i.store.get_map(state, i.key, k)\n                        observer.on_next(i._replace(key=(index, i.key)))\n                        i.store.del_map(state, i.key, k)\n                    i.store.del_key(state, i.key)\n                    outer_observer.on_next(i)\n\n                elif type(i) is rs.state.ProbeStateTopology', 'fire', ['ST-8'], 'hand mutant: swap iterate_map args in Error branch')
 m("C13", "operators/filter.py", "                    except Exception as e:", "                    except ValueError as e:", "fire", ["ER-1"])
@@ -198,6 +202,8 @@ m("C14", "state/memory_store.py", "        self.state[key[0]] = rs.state.markers
 m("C14", "state/store.py", "        return self.states[state].set(key, value)", "        return self.states[state].set(value, key)", "fire", ["MS-6"])
 m("C14", "state/memory_store.py", "append_count = (key[0]+1) - len(self.state)", "append_count = key[0] + 1 - len(self.keys)", "silent")
 # ---------------------------------------------------------------- C15
+m('C15', 'framing/line.py', "            return source.subscribe(\n                on_next=on_next,\n                on_completed=observer.on_completed,\n                on_error=observer.on_error,\n                scheduler=scheduler,\n            )\n        return rx.create(on_subscribe)\n\n    return _frame", "            return source.subscribe(\n                on_next=on_next,\n                on_error=observer.on_error,\n                scheduler=scheduler,\n            )\n        return rx.create(on_subscribe)\n\n    return _frame", 'fire', ['SUB-3'], 'mutation round 4: line.frame does not forward completion')
+m('C15', 'framing/length_prefix.py', "                observer.on_next(data)\n\n            return source.subscribe(\n                on_next=on_next,\n                on_completed=observer.on_completed,\n                on_error=observer.on_error\n            )", "                observer.on_next(data)\n\n            return source.subscribe(\n                on_next=on_next,\n                on_completed=observer.on_completed,\n            )", 'fire', ['SUB-3'], 'mutation round 4: length_prefix.frame swallows the source error')
 m('C15', 'framing/length_prefix.py', '                while bio_len - offset >= prefix_size:', '                while bio_len + offset >= prefix_size:', 'fire', ['CMP-2', 'FR-2'], 'hand mutant: while avail uses +offset')
 m('C15', 'framing/length_prefix.py', '                    if bio_len - offset - prefix_size >= size:', '                    if bio_len + offset - prefix_size >= size:', 'fire', ['CMP-2', 'FR-2'], 'hand mutant: size check uses +offset')
 m('C15', 'framing/length_prefix.py', '                    if bio_len - offset - prefix_size >= size:', '                    if bio_len - offset >= size:', 'fire', ['CMP-2', 'FR-2'], 'hand mutant: size check ignores prefix')
@@ -218,6 +224,9 @@ m("C16", "compression/zstd.py", "                    if not decompressor.eof:\n 
 m("C17", "data/codec.py", "                    data = decoder.decode(b'', final=True)\n                    observer.on_next(data)", "                    pass", "fire", ["CD-1"])
 m("C17", "data/codec.py", "def decode(encoding='utf8', incremental=True):", "def decode(encoding='utf8', incremental=False):", "fire", ["CD-1"])
 # ---------------------------------------------------------------- C18
+m('C18', 'container/csv.py', "        mode = 'w'\n", "        mode = 'a'\n", 'fire', ['CS-5'], 'mutation round 4: csv dump_to_file appends to an existing file')
+m('C18', 'container/csv.py', "file.read(filename, size=64*1024, encoding=encoding, open_obj=open_obj)", "file.read(filename, size=64*1024, open_obj=open_obj)", 'fire', ['CS-5'], 'mutation round 4: csv load_from_file ignores its encoding')
+m('C18', 'container/csv.py', "file.read(filename, size=64*1024, encoding=encoding, open_obj=open_obj).pipe(\n", "file.read(filename, mode='rb', size=64*1024, open_obj=open_obj).pipe(\n        ops.map(lambda i: i.decode(encoding or 'utf-8')),\n", 'fire', ['CS-5'], 'seed C18f in short: every read chunk decoded on its own')
 m("C18", "container/csv.py", "        mode = 'w'\n        if encoding is not None:", "        mode = None\n        if encoding is not None:", "fire", ["CS-5"], "the dump_to_file defect repaired by 95200ca, re-introduced")
 m("C18", "container/csv.py", "        mode = 'w'\n        if encoding is not None:\n            mode = 'wb'", "        mode = 'wb'", "fire", ["CS-5"], "always binary")
 m("C18", "container/csv.py", "        mode = 'w'\n        if encoding is not None:\n            mode = 'wb'", "        mode = 'wb' if encoding is not None else 'wt'", "silent")
@@ -264,6 +273,10 @@ m('C19', 'io/file.py', '                if type(file) is str:\n                 
 m("C19", "container/json.py", "        'gzip': rs.compression.z.decompress,\n        'zstd': rs.compression.zstd.decompress,", "        'gzip': rs.compression.zstd.decompress,\n        'zstd': rs.compression.z.decompress,", "fire", ["AG-7"])
 m("C19", "container/json.py", "                rs.data.decode(encoding),\n                line.unframe(),\n                load(skip=skip, ignore_error=ignore_error),\n        )\n    else:", "                line.unframe(),\n                rs.data.decode(encoding),\n                load(skip=skip, ignore_error=ignore_error),\n        )\n    else:", "fire", ["AG-7"])
 # ---------------------------------------------------------------- C20
+m('C20', 'container/parquet.py', "                    else:\n                        _load_file(filename)\n", "", 'fire', ['PU-2'], 'mutation round 4: the loader ignores a file object')
+m('C20', 'container/parquet.py', "f = open_obj(filename, mode='wb')", "f = open_obj(filename, mode='ab')", 'fire', ['PU-2'], 'mutation round 4: parquet file opened for appending')
+m('C20', 'container/parquet.py', "                        compression=compression,\n                        encryption_properties=encryption_properties,\n", "                        compression=compression,\n                        coerce_timestamps='ms',\n                        encryption_properties=encryption_properties,\n", 'fire', ['PU-2'], 'writer option that rewrites values')
+m('C20', 'container/parquet.py', "                        compression=compression,\n                        encryption_properties=encryption_properties,\n", "                        compression=compression,\n                        use_dictionary=True,\n                        encryption_properties=encryption_properties,\n", 'silent', [], 'writer option that does not touch the rows')
 m('C20', 'container/parquet.py', '                    writer.close()\n                    writer = None\n                    if type(filename) is str:\n                        f.close()\n\n                    observer.on_completed()', '                    if type(filename) is str:\n                        f.close()\n                    writer.close()\n                    writer = None\n\n                    observer.on_completed()', 'fire', ['FH-1', 'PU-2'], 'hand mutant: file closed before footer')
 m('C20', 'container/parquet.py', '                    writer.close()\n                    writer = None\n                    if type(filename) is str:\n                        f.close()\n\n                    observer.on_completed()', '                    writer.close()\n                    writer = None\n\n                    observer.on_completed()', 'fire', ['FH-1', 'PU-2'], 'hand mutant: parquet file not closed')
 m('C20', 'container/parquet.py', '                    if disposed:\n                        break', '                    if not disposed:\n                        break', 'fire', ['FH-1', 'PU-2'], 'hand mutant: loader stops after first batch')
